@@ -875,6 +875,13 @@ case("C09", "C09-D26", "mutant", "historical defect D26 re-introduced: a Docker 
 case("C08", "C08-D27", "mutant", "historical defect D27 re-introduced: the sweep of Close does not look at the top directory, where the temp files of index.json and oci-layout are made",
      patch="selftest/regress/D27.diff", expect=[("C08.R13", "writeIndex", "temp file in the layout's top directory")])
 
+# C19.R8 (known finding D28)
+case("C19", "C19-h-nolibs", "benign", "the interpreter is created without its default libraries (repaired form: no KNOWN-FINDING, no report)",
+     edits=[("cmd/regbot/sandbox/sandbox.go", "\tls := lua.NewState()\n", "\tls := lua.NewState(lua.Options{SkipOpenLibs: true})\n")])
+case("C19", "C19-m-openos", "mutant", "the interpreter is created without default libraries, then the os library is opened again",
+     edits=[("cmd/regbot/sandbox/sandbox.go", "\tls := lua.NewState()\n", "\tls := lua.NewState(lua.Options{SkipOpenLibs: true})\n\tlua.OpenOs(ls)\n")],
+     expect=[("C19.R8", "New", "file-capable Lua libraries")])
+
 def main():
     bad = 0
     for pid, cases in CASES.items():
